@@ -14,7 +14,7 @@ TECHNIQUE = (
 )
 RULE = (
     "scenario = word over events for n cases (references only after their full citation), all words of length <= L, "
-    "rendered as sentences of one document. distinct = distinct rendered text; non-trivial = scenario with >= 1 "
+    "rendered as sentences of one document (scenarios of <= 4 events also one sentence per line). distinct = distinct rendered text; non-trivial = scenario with >= 1 "
     "reference (short/supra/id) whose intended antecedent is defined by the model. idpins: 12 first pages x every pin cite "
     "from page-12 to page+150 plus four far-away pins x 5 contexts (directly after the full citation / a short form / a supra / "
     "an id., and as a page range) x 3 pools."
@@ -33,6 +33,7 @@ POOLS = [
     [("Adams", "Baker", "100", "F.2d", "200"), ("Clark", "Dunn", "100", "F.3d", "200"), ("Evans", "Flynn", "100", "F.", "350")],
 ]
 NCASES = 3
+NL_MAX = 4  # scenarios of <= 4 events are also rendered one sentence per line
 L = {"quick": 5, "thorough": 6}
 ALPHA = []
 for _i in range(NCASES):
@@ -89,7 +90,7 @@ def step(state, ev, cases):
     return state, ev, None
 
 
-def render(events, cases):
+def render(events, cases, sep=" "):
     parts = []
     for ev in events:
         k = ev[0]
@@ -109,7 +110,7 @@ def render(events, cases):
             parts.append(LONGFILL)
         else:
             parts.append("The court agreed with this.")
-    return " ".join(parts)
+    return sep.join(parts)
 
 
 def check_text(text, expect):
@@ -230,8 +231,8 @@ def run_shard(sh):
 
     def visit(state, events, expect, depth):
         # evaluate this scenario
-        if events:
-            text = render(events, cases)
+        for sep in (" ", "\n") if events and len(events) <= NL_MAX else ((" ",) if events else ()):
+            text = render(events, cases, sep)
             k = h64(text)
             if k not in st.states:
                 st.states.add(k)
